@@ -21,12 +21,15 @@ theorem sendFinished_prefix (h : HS P) (s : P.Secret) (b : Bool) : h.log <+: (HS
   List.prefix_append _ _
 
 theorem recvFinished_prefix {h h1 : HS P} {s : P.Secret} {m : Msg} {a b : Bool}
-    (hr : HS.recvFinished f h s m a b = some h1) : h.log <+: h1.log := by
+    (hr : HS.recvFinished f W h s m a b = some h1) : h.log <+: h1.log := by
   unfold HS.recvFinished at hr
   by_cases hc : finMatches f.finFullCompare (mbody m)
       (P.prf s (!h.role.isClient) (hashT P (if a = true then h.transcript else h.transcript ++ [m]))) = true
   · simp only [hc, if_true, Option.some.injEq] at hr; rw [← hr]; exact List.prefix_append _ _
   · simp [hc] at hr
+
+theorem takeS_log (h : HS P) (m : Msg) : (HS.takeS f W h m).log = h.log ++ [.msg false m] := by
+  unfold HS.takeS; split <;> rfl
 
 theorem clientFlight_prefix (h : HS P) (r : Bool) : h.log <+: (HS.clientFlight k f W h r).log := by
   unfold HS.clientFlight
@@ -145,13 +148,13 @@ theorem onMsg_prefix (h : HS P) (m : Msg) : h.log <+: (HS.onMsg k f W h m).log :
         exact List.prefix_append _ _
     · exact List.prefix_refl _
   · split
-    · exact List.prefix_append _ _
+    · simp only [takeS_log]; exact List.prefix_append _ _
     · exact List.prefix_refl _
   · -- sCKX
     split
     · split
-      · exact List.prefix_append _ _
-      · exact List.prefix_append _ _
+      · simp only [takeS_log]; exact List.prefix_append _ _
+      · simp only [takeS_log]; exact List.prefix_append _ _
     · exact List.prefix_refl _
   · split
     · exact List.prefix_append _ _
@@ -214,7 +217,7 @@ theorem server_head {h : HS P} (hr : ReachR k f W .server h) : ServerHead k W h 
           · right
             refine ⟨m, ?_⟩
             obtain ⟨rest, hrest⟩ := serverFlight_log (k := k) (f := f) (W := W)
-              ({ role := h.role, ctl := h.ctl, log := h.log ++ [.msg false m], transcript := if f.sHelloAdded = true then [m] else [], ms := h.ms } : HS P)
+              ({ role := h.role, ctl := h.ctl, log := h.log ++ [.msg false m], transcript := if f.sHelloAdded = true then [asMarshalled f W .server m] else [], ms := h.ms } : HS P)
             simp only [HS.take] at hrest ⊢
             rw [hrest]
             simp only [hl, hrole, List.nil_append, honestSH, List.singleton_append]
